@@ -179,11 +179,12 @@ type sentRec struct {
 }
 
 type fwdHist struct {
-	t    *tr.Trace
-	r    *tr.Rand
-	v    *rtpconn.VerifTrack
-	vp8  bool
-	mime string
+	pairIds, pairBitmaps []uint16 // set while a NACK is sent as id/bitmap pairs
+	t                    *tr.Trace
+	r                    *tr.Rand
+	v                    *rtpconn.VerifTrack
+	vp8                  bool
+	mime                 string
 	// reference (C01): withheld in-order arrivals
 	started  bool
 	next     int64
@@ -502,9 +503,33 @@ func (h *fwdHist) checkLayer(b, a lword, f codecs.Flags, isWrite bool) {
 	}
 }
 
+// nackPairs: the same feedback as RTCP carries it, a packet id and the bitmap
+// of the 16 numbers that follow; gotNACK serves the id, then the set bits in
+// ascending order - each number through Reverse on its own.
+func (h *fwdHist) nackPairs(ids, bitmaps []uint16) {
+	var os []uint16
+	for i, id := range ids {
+		os = append(os, id)
+		for b := 0; b < 16; b++ {
+			if bitmaps[i]&(1<<uint(b)) != 0 {
+				os = append(os, id+uint16(b)+1)
+			}
+		}
+	}
+	h.pairIds, h.pairBitmaps = ids, bitmaps
+	h.t.Note("nack-with-bitmap")
+	h.nack(os)
+	h.pairIds, h.pairBitmaps = nil, nil
+}
+
 func (h *fwdHist) nack(os []uint16) {
 	before := unpackLayer(h.v.Layer())
-	ps := h.v.NACK(os)
+	var ps [][]byte
+	if h.pairIds != nil {
+		ps = h.v.NACKPairs(h.pairIds, h.pairBitmaps)
+	} else {
+		ps = h.v.NACK(os)
+	}
 	after := unpackLayer(h.v.Layer())
 	strs := make([]string, len(os))
 	for i, o := range os {
@@ -836,7 +861,20 @@ func runForward(t *tr.Trace, r *tr.Rand, n int) {
 							os = append(os, uint16(r.U64()))
 						}
 					}
-					if len(os) > 0 {
+					if len(os) > 0 && r.Bool() {
+						// as pairs: each chosen number with a sparse bitmap of its successors
+						var bms []uint16
+						for range os {
+							bm := uint16(0)
+							for b := 0; b < 16; b++ {
+								if r.Chance(1, 4) {
+									bm |= 1 << uint(b)
+								}
+							}
+							bms = append(bms, bm)
+						}
+						h.nackPairs(os, bms)
+					} else if len(os) > 0 {
 						h.nack(os)
 					}
 				case 4:
